@@ -906,6 +906,13 @@ func (s *TxStore) Rollback(tx mwdb.DBTransaction, height uint64) error {
 					return err
 				}
 
+				// A wallet that is being removed has no balance record any more
+				// (its unspent, address and history records went with it and its
+				// credits go next): there is nothing to restore for it.
+				if _, ok := allMined[ma.Account()]; !ok {
+					continue
+				}
+
 				unspentVal, err := fetchNsUnspentValueFromRawCredit(credKey)
 				if err != nil {
 					return err
@@ -1045,8 +1052,9 @@ func (s *TxStore) Rollback(tx mwdb.DBTransaction, height uint64) error {
 						}
 					}
 				}
-				// check and delete game history
-				if ps.IsStaking() || ps.IsBinding() {
+				// check and delete game history (a wallet that is being removed
+				// has no balance record and no history records any more)
+				if _, live := allMined[ma.Account()]; live && (ps.IsStaking() || ps.IsBinding()) {
 					history := &gameHistory{
 						walletId:    ma.Account(),
 						txhash:      rec.Hash,
